@@ -389,7 +389,12 @@ root:
 			switch ev.Type() {
 			case midi.NoteOn:
 				d.externalTrackerMutex.Lock()
-				d.externalNoteTracker[ev.Channel()][ev.Note()] = true
+				if ev.Velocity() == 0 {
+					// note on with zero velocity is a note off (running status)
+					delete(d.externalNoteTracker[ev.Channel()], ev.Note())
+				} else {
+					d.externalNoteTracker[ev.Channel()][ev.Note()] = true
+				}
 				d.externalTrackerMutex.Unlock()
 			case midi.NoteOff:
 				d.externalTrackerMutex.Lock()
